@@ -113,8 +113,13 @@ def concrete(inp):
                         ch = [None if (isinstance(v, float) and v != v) else v for v in list(l.permeate_condensation_heat)]
                         if any((x is None) != (y is None) or (x is not None and not close(x, y, 1e-9)) for x, y in zip(m.permeate_condensation_heat, ch)):
                             bad.append("%s condensation heat: saved %r, loaded %r" % (kind, m.permeate_condensation_heat[:2], ch[:2]))
-                        if (l.permeate_temperature is None) != (Tp is None) or (l.permeate_pressure is None) != (Pp is None):
-                            bad.append("%s permeate condition: saved (%r, %r), loaded (%r, %r)" % (kind, Tp, Pp, l.permeate_temperature, l.permeate_pressure))
+                        for name, a, b in (("permeate_temperature", m.permeate_temperature, l.permeate_temperature), ("permeate_pressure", m.permeate_pressure, l.permeate_pressure)):
+                            b = _as_series(b)
+                            if len(a) != len(b):
+                                bad.append("%s (safe=%s) %s: series of length %d saved, length %d loaded (%r)" % (kind, safe, name, len(a), len(b), b[:2]))
+                            elif any((x is None) != _absent(y) or (x is not None and not close(x, y, 1e-9)) for x, y in zip(a, b)):
+                                bad.append("%s (safe=%s) %s: saved %r, loaded %r" % (kind, safe, name, a[:2], b[:2]))
+                        bad += _second_generation(l, m, d, safe, "%s (safe=%s)" % (kind, safe))
                         if l.permeances[0][0].units != Units.kg_m2_h_kPa or l.mixture.name != mix.name:
                             bad.append("%s units / mixture" % kind)
         if what in ("curve", "all"):
@@ -156,6 +161,58 @@ def concrete(inp):
     finally:
         shutil.rmtree(root, ignore_errors=True)
     return {"ok": not bad, "detail": "; ".join(bad[:3]), "inputs": inp}
+
+
+def _absent(v):
+    return v is None or (isinstance(v, float) and v != v)
+
+
+def _as_series(v):
+    """a loaded per-step field as a list; a scalar (or None) counts as a series of length one"""
+    if v is None or isinstance(v, (str, bytes)) or not hasattr(v, "__iter__"):
+        return [v]
+    return list(v)
+
+
+def _save_load(model, d, safe):
+    """save under a fresh membrane directory d (no name collision possible) and load the one process directory back"""
+    model.save(d, is_safe=safe)
+    (name,) = os.listdir(Path(d) / "results")
+    return ProcessModel.load(Path(d) / "results" / name, is_safe=safe)
+
+
+def _generations(m, l, d, safe):
+    """(second generation, model without conditions): a re-loaded model must itself be storable; initial_conditions is Optional"""
+    import copy
+    out = []
+    m0 = copy.copy(m)
+    m0.initial_conditions = None
+    for model, sub in ((l, "gen2"), (m0, "nocond")):
+        try:
+            out.append(_save_load(model, Path(d) / sub, safe))
+        except Exception as e:
+            out.append(e)
+    return out
+
+
+def _second_generation(l, m, d, safe, label):
+    bad = []
+    l2, l0 = _generations(m, l, d, safe)
+    if isinstance(l2, Exception):
+        bad.append("%s: the re-loaded model cannot be saved and loaded again (%s: %s)" % (label, type(l2).__name__, l2))
+    else:
+        for name in ("time", "feed_mass", "permeate_temperature", "permeate_pressure"):
+            a, b = _as_series(getattr(m, name)), _as_series(getattr(l2, name))
+            if len(a) != len(b) or any(_absent(x) != _absent(y) or (not _absent(x) and not close(x, y, 1e-9)) for x, y in zip(a, b)):
+                bad.append("%s: %s after save/load/save/load: %r, originally %r" % (label, name, b[:3], a[:3]))
+    if isinstance(l0, Exception):
+        bad.append("%s: a model with initial_conditions=None cannot be saved and loaded (%s: %s)" % (label, type(l0).__name__, l0))
+    else:
+        if l0.initial_conditions is not None:
+            bad.append("%s: initial_conditions=None loaded back as %r" % (label, l0.initial_conditions))
+        if len(_as_series(l0.time)) != len(m.time):
+            bad.append("%s: time series of a model without conditions: %d saved, %d loaded" % (label, len(m.time), len(_as_series(l0.time))))
+    return bad
 
 
 class _Clock:
@@ -224,14 +281,15 @@ def process_model(job, kind, mode, safe):
                     d = Path(root) / ("run%d" % len(os.listdir(root)))
                     m.save(d, is_safe=safe)
                     new = os.listdir(d / "results")
-                    return m, ProcessModel.load(d / "results" / new[0], is_safe=safe)
+                    l = ProcessModel.load(d / "results" / new[0], is_safe=safe)
+                    return (m, l) + tuple(_generations(m, l, d, safe))
 
                 got = 0
                 for leaf in job.explore(run, dom, timeout_ms=100):
                     if leaf.kind != "returned":
                         continue
                     got += 1
-                    m, l = leaf.value
+                    m, l, l2, l0 = leaf.value
                     cs = dom + leaf.conds()
                     F = lambda name, a, b: _eq_field(job, tag, name, cs, list(a), list(b), inputs)
                     F("time", m.time, l.time)
@@ -248,8 +306,19 @@ def process_model(job, kind, mode, safe):
                     F("feed_composition_basis", [c.type for c in m.feed_compositions], [c.type for c in l.feed_compositions])
                     F("permeate_composition", [c.p for c in m.permeate_composition], [c.p for c in l.permeate_composition])
                     F("permeate_composition_basis", [c.type for c in m.permeate_composition], [c.type for c in l.permeate_composition])
-                    F("permeate_temperature", [m.permeate_temperature[0]], [l.permeate_temperature])
-                    F("permeate_pressure", [m.permeate_pressure[0]], [l.permeate_pressure])
+                    F("permeate_temperature", m.permeate_temperature, _as_series(l.permeate_temperature))
+                    F("permeate_pressure", m.permeate_pressure, _as_series(l.permeate_pressure))
+                    if isinstance(l2, Exception):
+                        job.judge(tag + "/second_generation/storable", False, "saving the re-loaded model raised %s: %s" % (type(l2).__name__, l2), R_, inputs)
+                    else:
+                        for name in ("time", "feed_mass", "feed_temperature", "permeate_temperature", "permeate_pressure"):
+                            F("second_generation/" + name, _as_series(getattr(m, name)), _as_series(getattr(l2, name)))
+                        F("second_generation/permeance_1", [p[0].value for p in m.permeances], [p[0].value for p in l2.permeances])
+                    if isinstance(l0, Exception):
+                        job.judge(tag + "/no_conditions/storable", False, "saving a model with initial_conditions=None raised %s: %s" % (type(l0).__name__, l0), R_, inputs)
+                    else:
+                        job.judge(tag + "/no_conditions/loads_as_none", l0.initial_conditions is None, "loaded %r" % (l0.initial_conditions,), R_, inputs)
+                        F("no_conditions/time", m.time, _as_series(l0.time))
                     F("mixture_and_membrane", [m.mixture.name, m.membrane_name], [l.mixture.name, l.membrane_name])
                     fits_m, fits_l = m.permeance_fits, l.permeance_fits
                     for i in (0, 1):
